@@ -337,3 +337,8 @@ package postgresql
 //@   at call QueryDataItem.Setting : assert recv == encryptionSettings[i]
 //@   at call PacketHandler.updateDataFromColumns : assert recv == packet
 //@   ensures failed-column-fails-the-row: called(PgProxy.onColumnDecryption) && ret(PgProxy.onColumnDecryption)[1] != nil ==> err != nil && !called(PacketHandler.updateDataFromColumns)
+
+// Log discipline of the PostgreSQL proxy (C16): the statement text taken from a Query or Parse message - and the
+// normalized (literal-bearing) form the parser returns - never reach a logger; only the redacted text does.
+//@ structural pg-proxy-logs-only-redacted props C16 : noflow handleQueryPacket from ret:PacketHandler.GetSimpleQuery:0,ret:ParsePacket.QueryString:0,ret:Parser.HandleRawSQLQuery:0 to logrus.* clean Parser.HandleRawSQLQuery,AcraCensorInterface.HandleQuery,QueryObserverManager.OnQuery,OnQueryObject.Query,postgresql.NewOnQueryObjectFromQuery
+// (assumed, not checked: the error values of the censor and of the query observers do not embed the statement text)
